@@ -46,3 +46,47 @@ Example C07_null_irrelevant :
                                       PacketHeader_TransportPriority := false; PacketHeader_TransportScramblingControl := 0 |};
                   Packet_Payload := [1; 2; 3] |} = false.
 Proof. reflexivity. Qed.
+
+(* ---- the pool of the theorems above IS the source ----
+   Gen/PoolGen.v is translated from the current /repo/packet_pool.go on every run (go/gen/stateful.go). pool_add is the
+   regenerated packetPool.addUnlocked (TEI / no-payload filters, lookup-or-create of the accumulator under
+   uint32(PID), delegation to add); pool_dump is the regenerated packetPool.dumpUnlocked (visit the keys in increasing
+   order, delete each, stop at the first non-empty queue). The Go map is the model's association list: gen_get /
+   gen_set / gen_delete / gen_keys, which on sorted pools (every reachable pool: pool_run_sorted) are a finite map
+   with its keys in increasing order. *)
+Require Import Gen.PoolGen Proofs.PoolGenEq.
+
+Theorem C07_pool_is_source : forall pm pl p,
+  pool_add pm pl p = packetPool_addUnlocked (gen_get pm) gen_set is_psi_complete pl (Some (pm_mem pm)) p.
+Proof. exact pool_add_is_generated. Qed.
+Print Assumptions C07_pool_is_source.
+
+(* the key range is that of uint32 (the Go map's key type); PIDs are 13 bits *)
+Theorem C07_dump_is_source : forall pm bpm pl, keys_in_range pl ->
+  pool_dump pl = packetPool_dumpUnlocked (gen_get pm) gen_delete gen_keys pl bpm.
+Proof. exact pool_dump_is_generated. Qed.
+Print Assumptions C07_dump_is_source.
+
+Theorem C07_acc_is_source : forall pm pid q p,
+  acc_add pm pid q p = packetAccumulator_add is_psi_complete pid (Some (pm_mem pm)) q p.
+Proof. exact acc_add_is_generated. Qed.
+Print Assumptions C07_acc_is_source.
+
+(* the association list behaves as the Go map on sorted pools: what was stored is read back, other keys are
+   untouched, a deleted key is absent, and the keys come out in increasing order, all of them *)
+Theorem C07_map_model : forall pm pl k a x,
+  (packetAccumulator_pid a = k -> packetAccumulator_programMap a = Some (pm_mem pm) ->
+   gen_get pm (gen_set pl k a) k = Some a) /\
+  (x <> k -> gen_get pm (gen_set pl k a) x = gen_get pm pl x) /\
+  (sorted pl -> gen_get pm (gen_delete pl k) k = None) /\
+  (x <> k -> gen_get pm (gen_delete pl k) x = gen_get pm pl x) /\
+  (sorted pl -> increasing (gen_keys pl)) /\
+  (In k (gen_keys pl) <-> gen_get pm pl k <> None).
+Proof. exact map_model. Qed.
+Print Assumptions C07_map_model.
+
+(* the range premise of C07_dump_is_source is preserved by everything the pool does with packets whose PID fits *)
+Theorem C07_keys_in_range : forall pm pl p, keys_in_range pl -> 0 <= pid_of p < 4294967296 ->
+  keys_in_range (fst (pool_add pm pl p)) /\ keys_in_range (fst (pool_dump pl)).
+Proof. exact keys_in_range_preserved. Qed.
+Print Assumptions C07_keys_in_range.
